@@ -5,7 +5,7 @@
 set -eu
 . "$(dirname "$0")/../../../bin/env.sh"
 GR=$(go env GOROOT)
-RT="$VERIF_DIR/build/rt"
+RT="$VERIF_BUILD_DIR/rt"
 mkdir -p "$RT"
 sed -e 's/r := uintptr(rand())/r := uintptr(verifMapIterRand())/' \
     -e 's/h\.hash0 = uint32(rand())/h.hash0 = verifMapSeed()/' "$GR/src/runtime/map.go" > "$RT/map.go"
@@ -22,7 +22,7 @@ d['Replace'][gr+'/src/runtime/map.go']=rt+'/map.go'
 d['Replace'][gr+'/src/runtime/zz_verif.go']=vd+'/overlay/runtime_zz_verif.go'
 d['Replace'][gr+'/src/time/time.go']=rt+'/time.go'
 d['Replace'][gr+'/src/time/zz_verif.go']=vd+'/overlay/time_zz_verif.go'
-json.dump(d,open(vd+'/build/overlay-rt.json','w'))
+json.dump(d,open(ov.replace('overlay.json','overlay-rt.json'),'w'))
 PY
 cd "$REPO_DIR"
-go build -overlay "$VERIF_DIR/build/overlay-rt.json" -tags verifrt -o "$VERIF_DIR/build/c08" ./zzverif/props/c08
+go build -overlay "$VERIF_BUILD_DIR/overlay-rt.json" -tags verifrt -o "$VERIF_BUILD_DIR/c08" ./zzverif/props/c08
